@@ -314,3 +314,6 @@ def b_float(rng, tier):
             yield (("degenerate", tuple(xs)), False, "returned numbers")
         except ZeroDivisionError:
             yield (("degenerate", tuple(xs)), True, None)
+
+
+P.frame_check()
